@@ -304,6 +304,7 @@ func rulesC14(p *Prog, r *Report) {
 			r.Unknown("C3", "parser cycle", "-", "kind=undecided: no recursive parser functions found")
 		}
 	}
+	rulesC14b(p, r)
 	// C4
 	constColl := func(v ssa.Value) bool {
 		s := qz.prov(v, 0)
